@@ -112,8 +112,23 @@ func r2pJSONLoops(c *Ctx, p *packages.Package, fd *ast.FuncDecl) []Obligation {
 					visit(s, lbl)
 				}
 				return false
-			case *ast.RangeStmt:
-				t := types.Unalias(info.TypeOf(y.X)).Underlying()
+			case *ast.ForStmt, *ast.RangeStmt:
+				// `for _, v := range xs` or the counting form `for i := 0; i < len(xs); i++`
+				var lp struct {
+					X    ast.Expr
+					Body *ast.BlockStmt
+				}
+				switch l := x.(type) {
+				case *ast.RangeStmt:
+					lp.X, lp.Body = l.X, l.Body
+				case *ast.ForStmt:
+					lx := r2pCountingLoop(l)
+					if lx == nil {
+						return true
+					}
+					lp.X, lp.Body = lx, l.Body
+				}
+				t := types.Unalias(info.TypeOf(lp.X)).Underlying()
 				if _, isSlice := t.(*types.Slice); !isSlice {
 					if _, isArr := t.(*types.Array); !isArr {
 						return true
@@ -121,7 +136,7 @@ func r2pJSONLoops(c *Ctx, p *packages.Package, fd *ast.FuncDecl) []Obligation {
 				}
 				// the recursive call in the body: payload, skip[, err] := f(elem…)
 				var payload, skip types.Object
-				ast.Inspect(y.Body, func(z ast.Node) bool {
+				ast.Inspect(lp.Body, func(z ast.Node) bool {
 					as, ok := z.(*ast.AssignStmt)
 					if !ok || len(as.Rhs) != 1 || len(as.Lhs) < 2 {
 						return true
@@ -148,8 +163,8 @@ func r2pJSONLoops(c *Ctx, p *packages.Package, fd *ast.FuncDecl) []Obligation {
 					return true // not the element loop of the marshaller
 				}
 				nloops++
-				key := fmt.Sprintf("%s.%s|case %s|range %s|one output element per input element", strings.TrimPrefix(relPkg(p.PkgPath), "homescript/"), fd.Name.Name, label, exprStr(y.X))
-				ob := Obligation{Key: key, Pos: c.Pos(y.Pos()), Nontrivial: true}
+				key := fmt.Sprintf("%s.%s|case %s|range %s|one output element per input element", strings.TrimPrefix(relPkg(p.PkgPath), "homescript/"), fd.Name.Name, label, exprStr(lp.X))
+				ob := Obligation{Key: key, Pos: c.Pos(x.Pos()), Nontrivial: true}
 				if payload == nil || skip == nil {
 					ob.Status, ob.Detail = Undecided, "the element loop discards the payload or the skip result of the recursive call (blank identifier): cannot relate the append to them"
 					obs = append(obs, ob)
@@ -222,7 +237,7 @@ func r2pJSONLoops(c *Ctx, p *packages.Package, fd *ast.FuncDecl) []Obligation {
 						}
 					},
 				}
-				w.Run(y.Body, &r2pJSONState{})
+				w.Run(lp.Body, &r2pJSONState{})
 				switch {
 				case w.Overflow || len(w.Unsupported) > 0:
 					ob.Status, ob.Detail = Undecided, "path enumeration of the loop body gave up"
